@@ -165,6 +165,29 @@ def run(model: Model, rep: Report) -> None:
     s5 = "".join(unparse(nu.node).split())
     r4.check("name=name.split('.')[0]components=name.split('_')iflen(components)>1:return''.join(map(name2unicode,components))elifnameinglyphname2unicode:returnglyphname2unicode[name]" in s5, site(nu), nu.qualname, "AGL order: drop the suffix after '.', split at '_', then glyph list, then uniXXXX, then uXXXX", why="algorithm order changed")
 
+    # the part that is validated is the name without exactly its prefix
+    r15 = rep.rule("C06-R15", "GUARD", "glyph names uniXXXX / uXXXX: the hexadecimal part is the name with exactly the prefix removed (a slice or removeprefix) - str.strip takes its argument as a set of characters and works at both ends", 2)
+    for n in walk_no_nested(nu.node):
+        if not (isinstance(n, ast.Assign) and len(n.targets) == 1 and isinstance(n.targets[0], ast.Name)):
+            continue
+        pre = None
+        for (t, pol) in _guard_tests(nu, n):
+            if pol and isinstance(t, ast.Call) and isinstance(t.func, ast.Attribute) and t.func.attr == "startswith" and t.args and isinstance(t.args[0], ast.Constant) and isinstance(t.args[0].value, str):
+                pre = (unparse(t.func.value), t.args[0].value)
+        if pre is None:
+            continue
+        v = n.value
+        base, prefix = pre
+        if not ((isinstance(v, ast.Subscript) and unparse(v.value) == base) or (isinstance(v, ast.Call) and isinstance(v.func, ast.Attribute) and unparse(v.func.value) == base)):
+            continue  # not the prefix removal
+        exact = False
+        if isinstance(v, ast.Subscript) and unparse(v.value) == base and isinstance(v.slice, ast.Slice) and v.slice.upper is None and v.slice.step is None and v.slice.lower is not None:
+            lo = v.slice.lower
+            exact = (isinstance(lo, ast.Constant) and lo.value == len(prefix)) or "".join(unparse(lo).split()) == f"len({prefix!r})"
+        elif isinstance(v, ast.Call) and isinstance(v.func, ast.Attribute) and v.func.attr == "removeprefix" and unparse(v.func.value) == base and v.args and isinstance(v.args[0], ast.Constant) and v.args[0].value == prefix:
+            exact = True
+        r15.check(exact, site(nu, n), nu.qualname, f"{unparse(n)} : under {base}.startswith({prefix!r})", why=f"`{unparse(v)}` does not remove exactly the prefix {prefix!r}: names outside the grammar ({prefix}{prefix}0041, {prefix}0041{prefix[-1]}) are accepted and mapped instead of getting the placeholder")
+
     # ---------------------------------------------------------------- R5
     r5 = rep.rule("C06-R5", "DISPATCH", "font subtypes reach their classes; Type0 delegates to its descendant with Encoding/ToUnicode copied down", 6)
     gf = model.func("pdfminer.pdfinterp.PDFResourceManager.get_font")
